@@ -6,11 +6,13 @@ require (
 	github.com/onosproject/onos-api/go v0.10.32
 	github.com/onosproject/onos-config v0.0.0
 	github.com/openconfig/gnmi v0.9.1
+	google.golang.org/grpc v1.54.0
 )
 
 require (
 	github.com/Shopify/sarama v1.31.1 // indirect
 	github.com/atomix/atomix/api v1.1.0 // indirect
+	github.com/cenkalti/backoff v2.2.1+incompatible // indirect
 	github.com/davecgh/go-spew v1.1.1 // indirect
 	github.com/eapache/go-resiliency v1.2.0 // indirect
 	github.com/eapache/go-xerial-snappy v0.0.0-20180814174437-776d5712da21 // indirect
@@ -50,7 +52,6 @@ require (
 	golang.org/x/sys v0.6.0 // indirect
 	golang.org/x/text v0.8.0 // indirect
 	google.golang.org/genproto v0.0.0-20230110181048-76db0878b65f // indirect
-	google.golang.org/grpc v1.54.0 // indirect
 	google.golang.org/protobuf v1.28.1 // indirect
 	gopkg.in/ini.v1 v1.66.4 // indirect
 	gopkg.in/yaml.v2 v2.4.0 // indirect
